@@ -11,7 +11,6 @@
 // <= 255 octets (one trailing dot allowed, "" and "." are the root); every request is answered exactly once from
 // inside the callback; err is 0..15.
 #include "dns_server_common.hh"
-#include <set>
 using namespace dnss;
 
 namespace {
@@ -164,10 +163,6 @@ extern "C" int LLVMFuzzerTestOneInput(const uint8_t *data, size_t size) {
   sim_reset();
   verif_case_begin("C35");
   Src s(data, size);
-  const bool k_ptr = verif_known("C35/ptr-offset-ge-16384");
-  const bool k_oversize = verif_known("C35/oversize-rdata-accepted");
-  const bool k_term = verif_known("asan:stack-buffer-overflow@dnsname_to_labels");
-  const bool k_assert = verif_known("assert:server_send_response:req->response_len_<=_65535");
 
   bool tcp = s.below(3) == 1;
   static const int VOC[] = {3, 2, 5, 12, 40, 200};
@@ -205,7 +200,7 @@ extern "C" int LLVMFuzzerTestOneInput(const uint8_t *data, size_t size) {
     int ttl = (int)(uint32_t)s.boundary(32);
     bool oversize = false;
     if (rare(s, 1, 32) && (api == API_RAW || api == API_A || api == API_AAAA)) {
-      if (k_oversize) verif_known_skipped("C35/oversize-rdata-accepted"); else { oversize = true; count = 1; }
+      oversize = true; count = 1;
     }
     std::string base = s.flag() ? names.fresh() : names.reuse();
     std::string tbase = s.flag() ? names.fresh() : names.reuse();
@@ -249,34 +244,6 @@ extern "C" int LLVMFuzzerTestOneInput(const uint8_t *data, size_t size) {
       plan.push_back(r);
     }
   }
-  // ---- known findings excluded by construction, walking the plan in emission order with the uncompressed size as (upper bound of the) offset:
-  //  * C35/ptr-offset-ge-16384: a name must not occur for the first time at an offset >= 16384 (and be used again): once the offset may have
-  //    passed 16384 - 600, only name strings already used are kept;
-  //  * asan:stack-buffer-overflow@dnsname_to_labels: no name may end exactly at the end of the 64 KiB build buffer: once the offset may have
-  //    passed 65536 - 600, owners and rdata names become "." (the root is written by a separate, bounds-checked branch).
-  if (k_ptr || k_term) {
-    std::set<std::string> old; for (auto &q : qs.q) old.insert(join(q.name));
-    size_t off = 12; for (auto &q : qs.q) off += name_ub(q.name) + 4;
-    bool narrowed_ptr = false, narrowed_term = false; std::string repl = join(qs.q[0].name);
-    for (int sec = 0; sec < 3; sec++) {
-      if (sec == 2) off += 12;      // room for the server's own OPT
-      for (auto &r : plan) { if (r.section != sec || r.oversize) continue;
-        if (k_term && off >= 65536 - 600) {
-          std::string tmp; if (owner_string(r, tmp) != ".") { if (r.api == API_PTR_IN) r.api = API_PTR_NAME; r.name = "."; narrowed_term = true; }
-          if (rec_is_name(r) && r.target != ".") { r.target = "."; narrowed_term = true; }
-        } else if (k_ptr) {
-          std::string tmp; const std::string &own = owner_string(r, tmp);
-          if (off >= 16384 - 600) {
-            if (!old.count(own)) { if (r.api == API_PTR_IN) r.api = API_PTR_NAME; r.name = repl; narrowed_ptr = true; }
-            if (rec_is_name(r) && !old.count(r.target)) { r.target = repl; narrowed_ptr = true; }
-          } else { old.insert(own); if (rec_is_name(r)) old.insert(r.target); }
-        }
-        off += xrec_size(xrec_of(r));
-      }
-    }
-    if (narrowed_ptr) verif_known_skipped("C35/ptr-offset-ge-16384");
-    if (narrowed_term) verif_known_skipped("asan:stack-buffer-overflow@dnsname_to_labels");
-  }
   static const int RC[] = {0, 0, 0, 3, 2, 5, 15};
   Ctx c; c.plan = &plan; c.rcode = RC[s.below(7)]; c.aa = rare(s, 1, 4);
   // ---- exchange 1
@@ -311,14 +278,15 @@ extern "C" int LLVMFuzzerTestOneInput(const uint8_t *data, size_t size) {
       static const long DELTA[] = {0, -1, 1, -2, 2, 50};
       int which = s.below(4);
       long T = which == 3 ? 65536 + DELTA[s.below(6)] : limit2 + DELTA[s.below(6)];
-      if (tcp && T == 65536 && k_assert) { verif_known_skipped("assert:server_send_response:req->response_len_<=_65535"); T = 65535; }
       long L = T - S2 - 11;
       if (L >= 0 && L <= 65535) {
         c.pad_len = L; target = T;
-        // the padding record closes the additional section, or (so that names follow it) the authority section; the latter shifts what
-        // follows, which the by-construction exclusions above do not account for
-        c.pad_section = (!k_ptr && !k_term && s.flag()) ? EVDNS_AUTHORITY_SECTION : EVDNS_ADDITIONAL_SECTION;
-        o2 = exchange(w, s, c, q2, T, "exchange 2 (padding record)"); aimed = true;
+        // The padding record closes the additional section (then the complete size is exactly T: it is owned by ".", never compressed, and
+        // nothing follows it), or - so that names are written after it, up to the end of the 64 KiB build buffer - the authority section.
+        // In the latter case what follows is shifted: names beyond offset 0x3fff cannot be pointer targets and the root may or may not be
+        // written as a pointer, so the size of the complete message is then only known approximately and is not used by the oracle.
+        c.pad_section = s.flag() ? EVDNS_AUTHORITY_SECTION : EVDNS_ADDITIONAL_SECTION;
+        o2 = exchange(w, s, c, q2, c.pad_section == EVDNS_ADDITIONAL_SECTION ? T : -1, "exchange 2 (padding record)"); aimed = true;
         if (o2.got && o2.ri.tc) truncated = true;
       }
     }
@@ -335,7 +303,6 @@ extern "C" int LLVMFuzzerTestOneInput(const uint8_t *data, size_t size) {
   if (past16k) verif_class("pointer_written_past_16384");
   if (plan.size() >= 100) verif_class("records_ge_100");
   if (o1.got && o1.len > 16384) verif_class("response_gt_16k");
-  if (o1.ri.known_skipped || o2.ri.known_skipped) verif_class("oracle_narrowed_by_known_finding");
   if (nq > 1) verif_class("multi_question");
   int nontrivial = o1.got && (o1.ri.records_present >= 1) && (compressed || truncated || aimed || tcp);
   verif_case_end(nontrivial, s.h);
